@@ -10,7 +10,7 @@ for d in /verif/seeded/*/; do
   (cd /verif && ./check $P quick > /tmp/seedreg_$n.log 2>&1); RC=$?
   git checkout -- .
   V=$(grep -c "^VIOLATION" /tmp/seedreg_$n.log)
-  if [ $RC -eq 1 ] && [ $V -gt 0 ]; then echo "$n: caught ($V violation lines)"; elif [ "$(jq -r '.caught // true' $d/meta.json)" = "false" ]; then echo "$n: expected_miss (documented, exit $RC)"; else echo "$n: NOT CAUGHT (exit $RC)"; FAIL=1; fi
+  if [ $RC -eq 1 ] && [ $V -gt 0 ]; then echo "$n: caught ($V violation lines)"; elif [ "$(jq -r 'if has("caught") then .caught else true end' $d/meta.json)" = "false" ]; then echo "$n: expected_miss (documented, exit $RC)"; else echo "$n: NOT CAUGHT (exit $RC)"; FAIL=1; fi
   rm -f /tmp/seedreg_$n.log
 done
 exit $FAIL
